@@ -1,7 +1,7 @@
 """check.py configuration of C17."""
 import struct
 
-CFG = {"claim": "", "profiles": ["release"], "level": "proof"}
+CFG = {"claim": "", "profiles": ["release", "checked"], "level": "proof"}
 
 SLACK = 1e-6
 
